@@ -22,7 +22,7 @@ META = {
     'theorems': ['C12_tables', 'C12_or_left_wins', 'C12_or_fallback', 'C12_or_special', 'C12_or_special_not_inherited',
                  'C12_or_abstract_left', 'C12_and_overlay', 'C12_effective_nonrecursive', 'C12_effective_get',
                  'C12_cascade', 'C12_cascade_complete', 'C12_behaviour', 'C12_auto_tags_partial', 'C12_auto_tags_refuted',
-                 'C12_engines_agree', 'C12_history_fresh', 'C12_history_independent', 'C12_history_refuted'],
+                 'C12_engines_agree', 'C12_history_fresh', 'C12_history_independent', 'C12_history_refuted', 'C12_auto_tags_byvalue_partial'],
     'tables': ['MetaFields'],
     'level_text': ('Theorems proved in Coq for ALL Meta contents (any values, any subset of the settings table regenerated from '
                    'AbstractMeta), ALL nesting shapes (Optional, list, dict value, tuple, Union, intermediate dataclasses with their own '
@@ -331,11 +331,13 @@ def mk_config(engine, f, shapes, row, rng, bvals):
                 # the later binding OVERRIDES a value of the first one
                 for k in keys:
                     vals = bvals.get(k, ENGINE_SETTINGS[engine].get(k))
-                    if vals and k != 'auto_assign_tags':
+                    # (not marshal_date_time_as: a TIMESTAMP hook registered by the first binding is never unregistered,
+                    #  for the root itself as well - rebinding semantics, not the cascade)
+                    if vals and k not in ('auto_assign_tags', 'marshal_date_time_as'):
                         part1[k] = vals[1] if cfg['root'][k] == vals[0] else vals[0]
             pre_doc = {'my_val': 1}
             if 'union' in shape:
-                pre_doc[tag_key_of(effective(nested if cfg['nested'] is not None else None, part1 or None))] = 'NT'
+                pre_doc[tag_key_of(effective(cfg['nested'], part1))] = 'NT'
             cfg['root_steps'] = {'part1': part1, 'part2': {k: cfg['root'][k] for k in cfg['root'] if k in later}, 'pre_doc': pre_doc}
     if lv['history'].startswith('other_root'):
         if lv['other'] == 'nometa' and engine != 'v1load':
@@ -391,6 +393,10 @@ def in_region_F22(cfg):
     root = cfg['root']
     provided = False if (root is None or root.get('recursive', True) is False) else bool(root.get('auto_assign_tags', False))
     own = (cfg['nested'] or {}).get('auto_assign_tags')
+    if by_value(cfg):
+        # reached by value only: the class's own dump-function generation runs the auto-tag step (merged Meta), so an
+        # own False is respected; an own True still meets a Union parser that reads the root's config
+        return bool(own) and not provided
     return own is not None and bool(own) != provided
 
 
@@ -425,7 +431,7 @@ def check_dump(cfg, res, e=None):
         return 'dump raised %s: %s' % (r['err'], (r.get('msg') or '')[:200])
     got = norm_dump(r['ok']['nested'])
     exp = expected_dump(cfg, e)
-    if cfg['probe'] == 'union' and cfg.get('history', 'none') != 'none':
+    if cfg['probe'] == 'union' and has_earlier_use(cfg):
         # auto-tag assignment after earlier uses of the class: C13 histories
         ku = dump_key('u', (e if e is not None else effective(cfg['nested'], cfg['root'])).get('key_transform_with_dump'))
         got = [(k, v) for k, v in got if k != ku]
@@ -446,7 +452,7 @@ def check_load(cfg, res, e=None):
     if e is None:
         e = effective(cfg['nested'], cfg['root'])
     for doc, r in zip(cfg['docs'], res['results']):
-        if cfg['probe'] == 'union' and cfg.get('history', 'none') != 'none':
+        if cfg['probe'] == 'union' and has_earlier_use(cfg):
             continue        # auto-tag assignment after earlier uses of the class: C13 histories
         if cfg['probe'] == 'union':
             want_ok = bool(e.get('auto_assign_tags'))
@@ -603,6 +609,19 @@ def cascading(root):
     return not (root is None or root.get('recursive', True) is False)
 
 
+def by_value(cfg):
+    """the nested class N itself is reached by value only: a by-value position with no intermediate dataclass below it
+    (an intermediate class M below the by-value position reaches N through M's own annotations again)."""
+    sh = cfg['shape']
+    last_bv = max([i for i, h in enumerate(sh) if h in BY_VALUE], default=-1)
+    last_mid = max([i for i, h in enumerate(sh) if h == 'mid'], default=-1)
+    return last_bv > last_mid
+
+
+def has_earlier_use(cfg):
+    return len(uses_of_nested(cfg)) > 1
+
+
 def uses_of_nested(cfg):
     """(kind, root Meta or 'ALONE') for every use of the nested class, earlier uses first, the observation last."""
     h = cfg.get('history', 'none')
@@ -615,7 +634,8 @@ def uses_of_nested(cfg):
         out.append(('dump', cfg.get('other')))
     elif h == 'other_root_load':
         out.append(('load', cfg.get('other')))
-    if cfg.get('root_steps'):
+    if cfg.get('root_steps') and not any(h in BY_VALUE for h in cfg['shape']):
+        # (a load cannot reach a class that is only present by value, so that earlier load did not use the nested class)
         # the root itself was used once with the other engine while only the first part of its Meta was bound
         out.append(('load' if cfg['engine'] == 'dump' else 'dump', cfg['root_steps']['part1']))
     out.append(('dump' if cfg['engine'] == 'dump' else 'load', cfg['root']))
@@ -707,7 +727,7 @@ def run(ctx):
     # ---- model: behaviour vector per distinct (engine, root, nested, history) ----
     def mkey(c):
         return json.dumps([c['engine'], c['root'], c['nested'], c.get('history'), c.get('other'),
-                           (c.get('root_steps') or {}).get('part1')], sort_keys=True)
+                           (c.get('root_steps') or {}).get('part1'), by_value(c)], sort_keys=True)
     triples, index = [], {}
     for c in cfgs:
         k = mkey(c)
@@ -719,7 +739,7 @@ def run(ctx):
         exprs = []
         for c in triples:
             h, u = coq_hist(c)
-            exprs.append('show_hist %s %s %s' % (coq_cmeta(c['nested']), h, u))
+            exprs.append('show_hist %s %s %s %s' % ('true' if by_value(c) else 'false', coq_cmeta(c['nested']), h, u))
             exprs.append('show_impl %s %s %s' % (ENGINE_COQ[c['engine']], coq_cmeta(c['root']), coq_cmeta(c['nested'])))
             exprs.append('show_spec %s %s' % (coq_cmeta(c['root']), coq_cmeta(c['nested'])))
         out = ctx.coq(exprs, ['PyStr', 'MetaMerge'], prelude=PRELUDE)
@@ -740,6 +760,8 @@ def run(ctx):
         r22, r23 = in_region_F22(cfg), in_region_F23(cfg)
         hist = cfg.get('history', 'none')
         ctx.hist('history', hist)
+        ctx.hist('root_configured_in_steps', bool(cfg.get('root_steps')))
+        ctx.hist('by_value_shape', 'N by value' if by_value(cfg) else ('above an intermediate class' if any(h in BY_VALUE for h in cfg['shape']) else 'typed'))
         if cfg['engine'] != 'dump':
             ctx.hist('doc_type', cfg.get('doc_type', 'dict'))
         # -- direct predicate: nested behaviour == behaviour under effective(own, root), whatever happened before --
@@ -749,7 +771,7 @@ def run(ctx):
                 ctx.hist('known_region', F22_ID)
             elif r23 and ctx.is_open_region(F23_ID):
                 ctx.hist('known_region', F23_ID)
-            elif hist != 'none' and ctx.is_open_region(F10_ID) and check(cfg, res, leaky_effective(cfg)) is None:
+            elif has_earlier_use(cfg) and ctx.is_open_region(F10_ID) and check(cfg, res, leaky_effective(cfg)) is None:
                 # exactly the manifestation of F10 (per-class loader/dumper attributes, dump-key table, timestamp hooks,
                 # whitelisted tag keys, v1 alias table surviving from the earlier use); anything else is a violation
                 ctx.hist('known_region', F10_ID)
@@ -760,9 +782,9 @@ def run(ctx):
         if model is not None:
             v_hist, v_impl, v_spec = model[mkey(cfg)]
             ctx.traces_validated += 1
-            if hist == 'none' and not v_hist.startswith(v_impl + '|'):
+            if not has_earlier_use(cfg) and v_hist.split('|')[:12] != v_impl.split('|')[:12]:
                 ctx.broken_tie('Coq: show_hist with no earlier use differs from show_impl', {'cfg': cfg, 'hist': v_hist, 'impl': v_impl})
-            if (v_impl != v_spec) != r22 and cfg['probe'] == 'union':
+            if (v_hist.split('|')[12] != v_spec.split('|')[12]) != r22 and cfg['probe'] == 'union' and not has_earlier_use(cfg):
                 ctx.disagreements_checked += 1
                 ctx.broken_tie('Coq region in_region_auto and the harness region predicate disagree',
                                {'cfg': cfg, 'model_impl': v_impl, 'model_spec': v_spec})
@@ -772,7 +794,7 @@ def run(ctx):
             if r22 and F22_ID in resolved:
                 ctx.hist('model_comparison_skipped_resolved_finding', F22_ID)
                 continue
-            if hist != 'none' and F10_ID in resolved:
+            if has_earlier_use(cfg) and F10_ID in resolved:
                 ctx.hist('model_comparison_skipped_resolved_finding', F10_ID)
                 continue
             e_model = decode_vector(v_hist, cfg['engine'])
